@@ -12,6 +12,11 @@
 //!               (0–3 recording receivers) and `DefaultEchoHandler`.  Compared with the model (`recv`).
 //!  * `sim`    : the same packets through pocketscion's `LocalNetworkSimulation::handle_local_routing_action`
 //!               (`IngressSCMPHandleRequest` → `handle_scmp`, `SendSCMPErrorResponse(kind)` → `maybe_create_scmp_reply`).
+//!  * `receivers`: the production receiver list (`Subscribers`, weak references) behind `ScmpErrorHandler`: histories of
+//!               {register receiver, drop receiver k, bind another socket, close a socket, SCMP error / datagram arrive}
+//!               on a real `ScionStack` (hooks `stack_over_queues`, `register_scmp_error_receiver`, `ScionStack::bind`) and
+//!               on a socket assembled with the real handler; every order of drops of 1..5 receivers + random histories.
+//!               Compared with the list model (`subs`); oracle keys `C14:receivers:*`.
 //! Spec oracle (independent Rust code, literal offsets) on the implementation's own output: error packets ≤ 1232 B, quote =
 //! longest allowed prefix of the offending packet, checksum verifies (RFC 1071 over pseudo-header ++ message); an echo
 //! request yields exactly one echo reply with the same id/seq/data, swapped addresses and the reversed path; SCMP types
@@ -453,25 +458,30 @@ fn gen_rx_echo_bad_checksum(rng: &mut Rng) -> Rx {
     Rx { label: "echo-request-bad-checksum", bytes: b }
 }
 
+/// canonical text of what a receiver is told: `<kind with fields>/<quote hex>/<path type>/<path hex>`
+fn report_string(e: &ScmpErrorMessage, path: &ScionDpPathViewRef<'_>) -> String {
+    let k = match e {
+        ScmpErrorMessage::DestinationUnreachable(m) => format!("du:{}/{}", u8::from(m.code), hex(m.get_offending_packet())),
+        ScmpErrorMessage::PacketTooBig(m) => format!("ptb:{}/{}", m.mtu, hex(m.get_offending_packet())),
+        ScmpErrorMessage::ParameterProblem(m) => format!("pp:{}:{}/{}", u8::from(m.code), m.pointer, hex(m.get_offending_packet())),
+        ScmpErrorMessage::ExternalInterfaceDown(m) => format!("eid:{}:{}/{}", m.isd_asn.to_u64(), m.interface_id, hex(m.get_offending_packet())),
+        ScmpErrorMessage::InternalConnectivityDown(m) => {
+            format!("icd:{}:{}:{}/{}", m.isd_asn.to_u64(), m.ingress_interface_id, m.egress_interface_id, hex(m.get_offending_packet()))
+        }
+    };
+    let pt: u8 = match path {
+        ScionDpPathViewRef::Standard(_) => 1,
+        ScionDpPathViewRef::OneHop(_) => 2,
+        ScionDpPathViewRef::Empty => 0,
+        ScionDpPathViewRef::Unsupported { path_type, .. } => (*path_type).into(),
+    };
+    format!("{k}/{pt}/{}", hex(path.as_slice()))
+}
+
 struct Recorder(Mutex<Vec<String>>);
 impl ScmpErrorReceiver for Recorder {
     fn report_scmp_error<'a>(&self, e: ScmpErrorMessage, path: ScionDpPathViewRef<'a>) {
-        let k = match &e {
-            ScmpErrorMessage::DestinationUnreachable(m) => format!("du:{}/{}", u8::from(m.code), hex(m.get_offending_packet())),
-            ScmpErrorMessage::PacketTooBig(m) => format!("ptb:{}/{}", m.mtu, hex(m.get_offending_packet())),
-            ScmpErrorMessage::ParameterProblem(m) => format!("pp:{}:{}/{}", u8::from(m.code), m.pointer, hex(m.get_offending_packet())),
-            ScmpErrorMessage::ExternalInterfaceDown(m) => format!("eid:{}:{}/{}", m.isd_asn.to_u64(), m.interface_id, hex(m.get_offending_packet())),
-            ScmpErrorMessage::InternalConnectivityDown(m) => {
-                format!("icd:{}:{}:{}/{}", m.isd_asn.to_u64(), m.ingress_interface_id, m.egress_interface_id, hex(m.get_offending_packet()))
-            }
-        };
-        let pt: u8 = match &path {
-            ScionDpPathViewRef::Standard(_) => 1,
-            ScionDpPathViewRef::OneHop(_) => 2,
-            ScionDpPathViewRef::Empty => 0,
-            ScionDpPathViewRef::Unsupported { path_type, .. } => (*path_type).into(),
-        };
-        self.0.lock().unwrap().push(format!("{k}/{pt}/{}", hex(path.as_slice())));
+        self.0.lock().unwrap().push(report_string(&e, &path));
     }
 }
 
@@ -838,6 +848,509 @@ fn oracle_rx(rep: &mut Report, rx: &Rx, hspec: &str, ctor: Option<&str>, nrecv: 
             if reports != 0 {
                 rep.spec_fail("C14:non-error-reported", &format!("{reports} error reports for a packet of class {class}"), case.clone());
             }
+        }
+    }
+}
+
+// ---------------------------------------------------------------------------------------------
+// stream `receivers`: the production receiver list (`Subscribers`, held weakly) behind `ScmpErrorHandler`, driven through
+// the production entry points (`ScionStack::bind`, the stack's receiver registration, `recv_from` of the sockets) under
+// histories of {register receiver, drop receiver k, bind another socket, close a socket, SCMP error arrives, datagram
+// arrives}.  Oracle (property text): every SCMP error that arrives is reported exactly once to every receiver that is
+// registered and alive at that moment and to no dropped one; datagram delivery is unaffected.
+
+/// a receiver that writes into a log shared with the harness: what it is told stays observable after its owner
+/// dropped it
+struct Tagged {
+    slot: usize,
+    log: Arc<Mutex<Vec<(usize, String)>>>,
+}
+impl ScmpErrorReceiver for Tagged {
+    fn report_scmp_error<'a>(&self, e: ScmpErrorMessage, path: ScionDpPathViewRef<'a>) {
+        self.log.lock().unwrap().push((self.slot, report_string(&e, &path)));
+    }
+}
+
+/// one event of a history; receivers and sockets are named by labels, deliveries pick the `sel % live`-th open socket
+#[derive(Clone, Copy, Debug, PartialEq)]
+enum HOp {
+    Reg(usize),
+    DropRecv(usize),
+    Bind(usize),
+    Close(usize),
+    Err(usize),
+    Dgram(usize),
+    ErrDgram(usize),
+}
+impl HOp {
+    fn text(&self) -> String {
+        match self {
+            HOp::Reg(l) => format!("r{l}"),
+            HOp::DropRecv(l) => format!("x{l}"),
+            HOp::Bind(l) => format!("b{l}"),
+            HOp::Close(l) => format!("c{l}"),
+            HOp::Err(s) => format!("e{s}"),
+            HOp::Dgram(s) => format!("d{s}"),
+            HOp::ErrDgram(s) => format!("m{s}"),
+        }
+    }
+    fn human(&self) -> String {
+        match self {
+            HOp::Reg(l) => format!("register receiver r{l}"),
+            HOp::DropRecv(l) => format!("drop receiver r{l}"),
+            HOp::Bind(l) => format!("bind socket b{l} (its path manager joins the receiver list)"),
+            HOp::Close(l) => format!("close socket b{l} (its path manager goes away)"),
+            HOp::Err(s) => format!("an SCMP error arrives (recv_from on open socket #{s})"),
+            HOp::Dgram(s) => format!("a datagram arrives (recv_from on open socket #{s})"),
+            HOp::ErrDgram(s) => format!("an SCMP error, then a datagram arrive (one recv_from on open socket #{s})"),
+        }
+    }
+}
+fn hist_line(mode: &str, ops: &[HOp]) -> String {
+    format!("receivers {mode} {}", ops.iter().map(|o| o.text()).collect::<Vec<_>>().join(","))
+}
+fn parse_hist(line: &str) -> Option<(String, Vec<HOp>)> {
+    let mut it = line.split_whitespace();
+    if it.next()? != "receivers" {
+        return None;
+    }
+    let mode = it.next()?.to_string();
+    if mode != "stack" && mode != "handler" {
+        return None;
+    }
+    let mut ops = vec![];
+    for t in it.next()?.split(',') {
+        let (c, n) = t.split_at(1);
+        let n: usize = n.parse().ok()?;
+        ops.push(match c {
+            "r" => HOp::Reg(n),
+            "x" => HOp::DropRecv(n),
+            "b" => HOp::Bind(n),
+            "c" => HOp::Close(n),
+            "e" => HOp::Err(n),
+            "d" => HOp::Dgram(n),
+            "m" => HOp::ErrDgram(n),
+            _ => return None,
+        });
+    }
+    Some((mode, ops))
+}
+
+/// the SCMP error packet of step `i` (a function of `i` only, so that a history line replays) and what a receiver must
+/// be told about it: the kind with its fields, the quote and the path exactly as they are in the packet
+fn hist_error(i: usize) -> (Vec<u8>, String) {
+    let mut r = Rng::new(0xC14_0000 + i as u64);
+    let kind = gk(&mut r);
+    let path = gen_path(&mut r);
+    let hs = hosts();
+    let mut quote = format!("offending packet of step {i} ").into_bytes();
+    let n = r.below(40) as usize;
+    quote.extend(r.bytes(n));
+    let src = ScionAddr::new(ia(), *r.pick(&hs));
+    let b = ScionScmpPacket::new(src, ScionAddr::new(ia2(), hs[0]), path.clone(), kind.msg(quote.clone())).try_encode_to_vec().unwrap();
+    let pb = path.try_encode_to_vec().unwrap();
+    (b, format!("{}/{}/{}/{}", kind.spec(), hex(&quote), u8::from(path.path_type()), hex(&pb)))
+}
+/// the datagram of step `i` and what `recv_from` must hand out for it
+fn hist_dgram(i: usize) -> (Vec<u8>, String) {
+    let mut r = Rng::new(0xD6_0000 + i as u64);
+    let hs = hosts();
+    let h = *r.pick(&hs[..2]);
+    let port = 1000 + (i % 5000) as u16;
+    let payload = format!("datagram {i}").into_bytes();
+    let b = ScionUdpPacket::new(ScionSocketAddr::new(ia(), h, port), ScionSocketAddr::new(ia2(), hs[0], 53), gen_path(&mut r), payload.clone()).try_encode_to_vec().unwrap();
+    let (nib, hb) = host_nib_bytes(&h);
+    (b, format!("udp {} {} {} {} {}", hex(&payload), ia().to_u64(), nib, hex(&hb), port))
+}
+fn fmt_dgram(buf: &[u8], n: usize, src: ScionSocketIpAddr) -> String {
+    let (nib, hb) = host_nib_bytes(&ScionHostAddr::from(src.ip()));
+    format!("udp {} {} {} {} {}", hex(&buf[..n.min(buf.len())]), src.isd_asn().to_u64(), nib, hex(&hb), src.port())
+}
+
+#[derive(Default, Clone)]
+struct HistOut {
+    /// (index of the event, key, what)
+    fails: Vec<(usize, String, String)>,
+    /// the history as the receiver list sees it (driver op `subs`): r = an entry is registered, x<slot>, e
+    slot_ops: Vec<String>,
+    /// per list entry: a harness receiver (true) or the path manager of a bound socket (false, not observable)
+    observable: Vec<bool>,
+    /// per delivered error: the harness receivers told, in call order
+    notified: Vec<Vec<usize>>,
+    errors: usize,
+    datagrams: usize,
+    /// errors that arrived while an entry registered before a live one was dead and nothing had been registered since
+    errors_behind_dead_entry: usize,
+    max_live: usize,
+}
+
+enum Sock {
+    Plain(scion_stack::stack::PathUnawareUdpScionSocket),
+    Managed(scion_stack::stack::UdpScionSocket),
+}
+
+/// runs one history on the real code.  `mode = "stack"`: a real `ScionStack` over the in-memory underlay, receivers
+/// registered in the stack's list, sockets from `ScionStack::bind`; `mode = "handler"`: one socket assembled with the
+/// real `ScmpErrorHandler` over a `Subscribers` list holding the receivers registered by the leading `r` events.
+/// Events that make no sense where they stand (unknown label, no open socket, `b`/`c`/late `r` in handler mode) are
+/// skipped, so that any sub-sequence of a history is a history.
+fn run_history(rt: &tokio::runtime::Runtime, mode: &str, ops: &[HOp]) -> HistOut {
+    let out = Mutex::new(HistOut::default());
+    let at = Mutex::new(0usize);
+    let r = catch(|| {
+        rt.block_on(async {
+            let local = ScionSocketIpAddr::new(ia2(), IpAddr::V4(Ipv4Addr::new(10, 0, 0, 7)), 53);
+            let log: Arc<Mutex<Vec<(usize, String)>>> = Arc::new(Mutex::new(vec![]));
+            let mut seen = 0usize;
+            // (label, list entry, the owner's strong reference)
+            let mut recvs: Vec<(usize, usize, Option<Arc<Tagged>>)> = vec![];
+            // (label, list entry of its path manager, the socket)
+            let mut socks: Vec<(usize, usize, Option<Sock>)> = vec![];
+            let mut next_slot = 0usize;
+            let mut dirty = false;
+            let mut start = 0usize;
+            let (stack, q) = if mode == "stack" {
+                let (s, q) = verif_scmp::stack_over_queues(local);
+                (Some(s), q)
+            } else {
+                let mut rs: Vec<Arc<dyn ScmpErrorReceiver>> = vec![];
+                for op in ops {
+                    let HOp::Reg(l) = *op else { break };
+                    start += 1;
+                    if recvs.iter().any(|e| e.0 == l) {
+                        continue;
+                    }
+                    let t = Arc::new(Tagged { slot: next_slot, log: log.clone() });
+                    rs.push(t.clone());
+                    recvs.push((l, next_slot, Some(t)));
+                    let mut o = out.lock().unwrap();
+                    o.observable.push(true);
+                    o.slot_ops.push("r".into());
+                    next_slot += 1;
+                }
+                let (sock, q) = verif_scmp::socket_over_queues(local, vec![verif_scmp::error_handler(&rs)]);
+                drop(rs);
+                socks.push((0, usize::MAX, Some(Sock::Plain(sock))));
+                (None, q)
+            };
+            let mut buf = vec![0u8; 65535];
+            for (idx, op) in ops.iter().enumerate().skip(start) {
+                *at.lock().unwrap() = idx;
+                let mut expect_err: Option<String> = None;
+                let mut dgram: Option<(Option<String>, Option<String>)> = None; // (expected, got)
+                let live_after = |slot: usize, recvs: &Vec<(usize, usize, Option<Arc<Tagged>>)>, socks: &Vec<(usize, usize, Option<Sock>)>| {
+                    recvs.iter().any(|e| e.2.is_some() && e.1 > slot) || socks.iter().any(|e| e.2.is_some() && e.1 != usize::MAX && e.1 > slot)
+                };
+                match *op {
+                    HOp::Reg(l) => {
+                        if let Some(stack) = &stack {
+                            if !recvs.iter().any(|e| e.0 == l) {
+                                let t = Arc::new(Tagged { slot: next_slot, log: log.clone() });
+                                verif_scmp::register_scmp_error_receiver(stack, t.clone());
+                                recvs.push((l, next_slot, Some(t)));
+                                let mut o = out.lock().unwrap();
+                                o.observable.push(true);
+                                o.slot_ops.push("r".into());
+                                next_slot += 1;
+                                dirty = false;
+                            }
+                        }
+                    }
+                    HOp::DropRecv(l) => {
+                        if let Some(e) = recvs.iter_mut().find(|e| e.0 == l && e.2.is_some()) {
+                            e.2 = None;
+                            let slot = e.1;
+                            out.lock().unwrap().slot_ops.push(format!("x{slot}"));
+                            if live_after(slot, &recvs, &socks) {
+                                dirty = true;
+                            }
+                        }
+                    }
+                    HOp::Bind(l) => {
+                        if let Some(stack) = &stack {
+                            if !socks.iter().any(|e| e.0 == l) && socks.iter().filter(|e| e.2.is_some()).count() < 4 {
+                                let sock = stack.bind(Some(local)).await.expect("bind over the queue underlay");
+                                socks.push((l, next_slot, Some(Sock::Managed(sock))));
+                                let mut o = out.lock().unwrap();
+                                o.observable.push(false);
+                                o.slot_ops.push("r".into());
+                                next_slot += 1;
+                                dirty = false;
+                            }
+                        }
+                    }
+                    HOp::Close(l) => {
+                        if stack.is_some() {
+                            if let Some(e) = socks.iter_mut().find(|e| e.0 == l && e.2.is_some()) {
+                                e.2 = None;
+                                let slot = e.1;
+                                out.lock().unwrap().slot_ops.push(format!("x{slot}"));
+                                if live_after(slot, &recvs, &socks) {
+                                    dirty = true;
+                                }
+                            }
+                        }
+                    }
+                    HOp::Err(sel) | HOp::Dgram(sel) | HOp::ErrDgram(sel) => {
+                        let live: Vec<usize> = socks.iter().enumerate().filter(|(_, e)| e.2.is_some()).map(|(i, _)| i).collect();
+                        if live.is_empty() {
+                            continue;
+                        }
+                        let si = live[sel % live.len()];
+                        let mut want_dg = None;
+                        if !matches!(op, HOp::Dgram(_)) {
+                            let (b, exp) = hist_error(idx);
+                            q.incoming.lock().unwrap().push_back(b);
+                            expect_err = Some(exp);
+                        }
+                        if !matches!(op, HOp::Err(_)) {
+                            let (b, exp) = hist_dgram(idx);
+                            q.incoming.lock().unwrap().push_back(b);
+                            want_dg = Some(exp);
+                        }
+                        let got = match socks[si].2.as_ref().unwrap() {
+                            Sock::Plain(s) => s.recv_from(&mut buf).await.ok().map(|(n, src)| fmt_dgram(&buf, n, src)),
+                            Sock::Managed(s) => s.recv_from(&mut buf).await.ok().map(|(n, src)| fmt_dgram(&buf, n, src)),
+                        };
+                        q.incoming.lock().unwrap().clear();
+                        dgram = Some((want_dg, got));
+                    }
+                }
+                // ---- oracle for this event
+                let new: Vec<(usize, String)> = {
+                    let l = log.lock().unwrap();
+                    let v = l[seen..].to_vec();
+                    seen = l.len();
+                    v
+                };
+                let mut o = out.lock().unwrap();
+                let n_live = recvs.iter().filter(|e| e.2.is_some()).count();
+                o.max_live = o.max_live.max(n_live);
+                if let Some(exp) = &expect_err {
+                    o.errors += 1;
+                    o.slot_ops.push("e".into());
+                    if dirty {
+                        o.errors_behind_dead_entry += 1;
+                    }
+                    for (label, slot, owner) in &recvs {
+                        let c = new.iter().filter(|(s, _)| s == slot).count();
+                        match (owner.is_some(), c) {
+                            (true, 0) => o.fails.push((idx, "C14:receivers:missed".into(), format!("receiver r{label} is registered and alive but was not told about the SCMP error that arrived at event {idx} ({n_live} live receivers, {} told)", new.len()))),
+                            (true, 1) | (false, 0) => {}
+                            (true, c) => o.fails.push((idx, "C14:receivers:duplicate".into(), format!("receiver r{label} was told {c} times about the one SCMP error that arrived at event {idx}"))),
+                            (false, c) => o.fails.push((idx, "C14:receivers:dropped-notified".into(), format!("receiver r{label} had been dropped but was told {c} times about the SCMP error that arrived at event {idx}"))),
+                        }
+                    }
+                    for (slot, r) in &new {
+                        if r != exp {
+                            o.fails.push((idx, "C14:receivers:report-wrong".into(), format!("list entry {slot} was told {} instead of the error as it is in the packet ({})", r.chars().take(120).collect::<String>(), exp.chars().take(120).collect::<String>())));
+                        }
+                    }
+                    o.notified.push(new.iter().map(|x| x.0).collect());
+                } else if !new.is_empty() {
+                    o.fails.push((idx, "C14:receivers:spurious-report".into(), format!("{} reports to receivers although no SCMP error arrived at event {idx}", new.len())));
+                }
+                if let Some((want, got)) = dgram {
+                    if want.is_some() {
+                        o.datagrams += 1;
+                    }
+                    if want != got {
+                        o.fails.push((idx, "C14:receivers:datagram".into(), format!("recv_from handed out {got:?} where the datagrams that arrived are {want:?}")));
+                    }
+                }
+            }
+            let sent = q.sent.lock().unwrap().len();
+            if sent != 0 {
+                out.lock().unwrap().fails.push((ops.len(), "C14:receivers:reply-to-error".into(), format!("{sent} packets were sent although only SCMP errors and datagrams arrived")));
+            }
+        })
+    });
+    let mut o = out.into_inner().unwrap();
+    if let Err(m) = r {
+        o.fails.push((*at.lock().unwrap(), "C14:receivers:panic".into(), format!("panic: {m}")));
+    }
+    o
+}
+
+/// run one history, compare with the model of the receiver list, apply the oracle, shrink and report failures
+fn check_history(rep: &mut Report, lean: &mut Lean, rt: &tokio::runtime::Runtime, mode: &str, ops: &[HOp], origin: &str) {
+    let out = run_history(rt, mode, ops);
+    let line = hist_line(mode, ops);
+    rep.traces += 1;
+    rep.case(&line, out.errors > 0 && out.observable.iter().any(|o| *o));
+    rep.hit(&format!("receivers {origin} ({mode})"));
+    rep.hit(&format!("receivers max live receivers {}", out.max_live));
+    rep.hit_n("receivers SCMP errors delivered", out.errors as u64);
+    rep.hit_n("receivers SCMP errors delivered behind a dead list entry", out.errors_behind_dead_entry as u64);
+    rep.hit_n("receivers datagrams delivered", out.datagrams as u64);
+    rep.hit_n("receivers notifications", out.notified.iter().map(|v| v.len() as u64).sum());
+    // model of the list (Model/ScmpSubscribers.lean): same registrations / drops / errors, compared on the entries the
+    // harness can observe, in call order
+    if lean.enabled && out.errors > 0 && !out.fails.iter().any(|f| f.1.ends_with(":panic")) {
+        let mo = lean.ask(&format!("subs {}", out.slot_ops.join(",")));
+        let parsed: Option<Vec<Vec<usize>>> = mo.strip_prefix("subs=").and_then(|r| {
+            r.split(';').map(|l| if l == "-" { Some(vec![]) } else { l.split('.').map(|x| x.parse::<usize>().ok()).collect::<Option<Vec<_>>>() }).collect::<Option<Vec<_>>>()
+        });
+        let model: Option<Vec<Vec<usize>>> = parsed.map(|ls| ls.into_iter().map(|l| l.into_iter().filter(|s| out.observable.get(*s).copied().unwrap_or(true)).collect()).collect());
+        if model.as_ref() != Some(&out.notified) {
+            rep.disagree("receivers", json!({"line": line, "list_history": out.slot_ops.join(",")}), &format!("{:?}", out.notified), &format!("{mo} -> observable {model:?}"));
+        }
+    }
+    let mut keys: Vec<String> = vec![];
+    for f in &out.fails {
+        if !keys.contains(&f.1) {
+            keys.push(f.1.clone());
+        }
+    }
+    for key in keys {
+        // shrink: drop events as long as the same kind of failure remains
+        let mut cur: Vec<HOp> = ops.to_vec();
+        let mut changed = true;
+        while changed {
+            changed = false;
+            let mut i = 0;
+            while i < cur.len() {
+                let mut cand = cur.clone();
+                cand.remove(i);
+                if run_history(rt, mode, &cand).fails.iter().any(|f| f.1 == key) {
+                    cur = cand;
+                    changed = true;
+                } else {
+                    i += 1;
+                }
+            }
+        }
+        let fin = run_history(rt, mode, &cur);
+        let Some(f) = fin.fails.iter().find(|f| f.1 == key).cloned() else { continue };
+        let packet = match cur.get(f.0) {
+            Some(HOp::Err(_)) | Some(HOp::ErrDgram(_)) => hex(&hist_error(f.0).0),
+            Some(HOp::Dgram(_)) => hex(&hist_dgram(f.0).0),
+            _ => "-".into(),
+        };
+        rep.spec_fail(&key, &f.2, json!({
+            "stream": "receivers",
+            "socket": if mode == "stack" { "ScionStack over the in-memory underlay: register_scmp_error_receiver / ScionStack::bind / UdpScionSocket::recv_from" } else { "socket assembled with ScmpErrorHandler over a Subscribers list" },
+            "line": hist_line(mode, &cur),
+            "history": cur.iter().enumerate().map(|(i, o)| format!("{i}: {}", o.human())).collect::<Vec<_>>(),
+            "failing_event": f.0,
+            "packet_of_failing_event": packet,
+            "shrunk_from": line,
+        }));
+    }
+}
+
+fn permutations(n: usize) -> Vec<Vec<usize>> {
+    fn go(rest: &mut Vec<usize>, cur: &mut Vec<usize>, out: &mut Vec<Vec<usize>>) {
+        if rest.is_empty() {
+            out.push(cur.clone());
+            return;
+        }
+        for i in 0..rest.len() {
+            let x = rest.remove(i);
+            cur.push(x);
+            go(rest, cur, out);
+            cur.pop();
+            rest.insert(i, x);
+        }
+    }
+    let mut out = vec![];
+    go(&mut (0..n).collect(), &mut vec![], &mut out);
+    out
+}
+
+fn receivers_stream(rng: &mut Rng, lean: &mut Lean, rep: &mut Report, rt: &tokio::runtime::Runtime, rounds: usize, corpus: &[(String, Vec<HOp>)]) {
+    for (mode, ops) in corpus {
+        check_history(rep, lean, rt, mode, ops, "corpus");
+    }
+    // every order of drops of 1..5 receivers: all registered, an error and a datagram with everybody alive, then after
+    // each drop again (an error alone / error and datagram in one recv_from / two errors and a datagram, rotating); in
+    // stack mode the socket is bound before, between or after the registrations so that its path manager sits at every
+    // position of the list
+    let mut k = 0usize;
+    for n in 1..=5usize {
+        for perm in permutations(n) {
+            for mode in ["stack", "handler"] {
+                let mut ops: Vec<HOp> = vec![];
+                let bind_at = k % (n + 1);
+                for l in 0..n {
+                    if mode == "stack" && l == bind_at {
+                        ops.push(HOp::Bind(0));
+                    }
+                    ops.push(HOp::Reg(l));
+                }
+                if mode == "stack" && bind_at == n {
+                    ops.push(HOp::Bind(0));
+                }
+                ops.push(HOp::ErrDgram(0));
+                for (j, l) in perm.iter().enumerate() {
+                    ops.push(HOp::DropRecv(*l));
+                    match (k + j) % 3 {
+                        0 => ops.extend([HOp::Err(0), HOp::Dgram(0)]),
+                        1 => ops.push(HOp::ErrDgram(0)),
+                        _ => ops.extend([HOp::Err(0), HOp::Err(0), HOp::Dgram(0)]),
+                    }
+                }
+                check_history(rep, lean, rt, mode, &ops, "every order of drops");
+            }
+            k += 1;
+        }
+    }
+    // random histories: registrations (at most 5 live harness receivers, 9 in total), drops in any order, further
+    // sockets bound and closed (their path managers are list entries too), deliveries on any open socket
+    for round in 0..rounds {
+        let mode = if round % 4 == 3 { "handler" } else { "stack" };
+        let mut ops: Vec<HOp> = vec![];
+        let (mut regs, mut live, mut binds, mut open): (usize, Vec<usize>, usize, Vec<usize>) = (0, vec![], 0, vec![]);
+        if mode == "handler" {
+            for _ in 0..rng.range(1, 5) {
+                ops.push(HOp::Reg(regs));
+                live.push(regs);
+                regs += 1;
+            }
+        } else if rng.chance(2, 3) {
+            ops.push(HOp::Bind(0));
+            open.push(0);
+            binds = 1;
+        }
+        let len = rng.range(5, 28) as usize;
+        while ops.len() < len {
+            match rng.below(12) {
+                0 | 1 | 2 if mode == "stack" && live.len() < 5 && regs < 9 => {
+                    ops.push(HOp::Reg(regs));
+                    live.push(regs);
+                    regs += 1;
+                }
+                3 | 4 | 5 if !live.is_empty() => {
+                    let i = rng.below(live.len() as u64) as usize;
+                    ops.push(HOp::DropRecv(live.remove(i)));
+                }
+                6 if mode == "stack" && open.len() < 3 && binds < 6 => {
+                    ops.push(HOp::Bind(binds));
+                    open.push(binds);
+                    binds += 1;
+                }
+                7 if mode == "stack" && open.len() > 1 => {
+                    let i = rng.below(open.len() as u64) as usize;
+                    ops.push(HOp::Close(open.remove(i)));
+                }
+                8 | 9 => ops.push(HOp::Err(rng.below(3) as usize)),
+                10 => ops.push(HOp::ErrDgram(rng.below(3) as usize)),
+                11 => ops.push(HOp::Dgram(rng.below(3) as usize)),
+                _ => {
+                    if mode == "stack" && open.is_empty() {
+                        ops.push(HOp::Bind(binds));
+                        open.push(binds);
+                        binds += 1;
+                    } else {
+                        ops.push(HOp::Err(rng.below(3) as usize));
+                    }
+                }
+            }
+        }
+        check_history(rep, lean, rt, mode, &ops, "random history");
+        if round == 0 {
+            let out = run_history(rt, mode, &ops);
+            rep.sample(json!({"stream": "receivers", "line": hist_line(mode, &ops), "errors": out.errors, "datagrams": out.datagrams, "told_per_error": out.notified.iter().map(|v| v.len()).collect::<Vec<_>>()}));
         }
     }
 }
@@ -1523,8 +2036,9 @@ fn main() {
         "build: one case = (error kind, address kinds, path, offending length) through the real encoders vs the model, \
          byte for byte; recv: one case = one received packet (every SCMP type/code, truncated, wrong checksum, error quoting \
          an error, echo over reversible/irreversible paths, UDP, other) run alone and inside random interleavings through the \
-         real socket loop with the real handlers; sim: one case = (packet, routing action) through pocketscion. Non-trivial = \
-         build case with a non-empty offending packet, or a decodable received packet that is UDP or SCMP; distinct by hash of \
+         real socket loop with the real handlers; sim: one case = (packet, routing action) through pocketscion; receivers: one case = one history of \
+         registrations / drops / binds / deliveries on the production receiver list. Non-trivial = a history in which an SCMP \
+         error arrives with a harness receiver registered, a build case with a non-empty offending packet, or a decodable received packet that is UDP or SCMP; distinct by hash of \
          the parameters / first 96 packet bytes + length + handler configuration",
     );
     let consts = lean.ask("const");
@@ -1535,17 +2049,26 @@ fn main() {
     let rt = tokio::runtime::Builder::new_current_thread().enable_all().build().unwrap();
     let corpus: Vec<Vec<u8>> = read_corpus(&args.corpus).iter().filter_map(|l| unhex(l.split_whitespace().next()?)).collect();
     rep.hit_n("corpus packets", corpus.len() as u64);
+    let histories: Vec<(String, Vec<HOp>)> = read_corpus(&args.corpus).iter().filter_map(|l| parse_hist(l)).collect();
+    rep.hit_n("corpus receiver histories", histories.len() as u64);
     if let Some(p) = &args.replay {
         let txt = std::fs::read_to_string(p).expect("replay file");
+        let hs: Vec<(String, Vec<HOp>)> = txt.lines().filter_map(parse_hist).collect();
+        for (mode, ops) in &hs {
+            check_history(&mut rep, &mut lean, &rt, mode, ops, "replay");
+        }
         let pk: Vec<Vec<u8>> = txt.lines().filter_map(|l| unhex(l.split_whitespace().next()?)).collect();
-        recv_stream(&mut rng, &mut lean, &mut rep, &rt, 1, &pk);
-        sim_stream(&mut rng, &mut lean, &mut rep, pk.len(), &pk);
+        if !pk.is_empty() || hs.is_empty() {
+            recv_stream(&mut rng, &mut lean, &mut rep, &rt, 1, &pk);
+            sim_stream(&mut rng, &mut lean, &mut rep, pk.len(), &pk);
+        }
     } else {
         build_stream(&mut rng, &mut lean, &mut rep, args.scale(160, 4000));
         recv_stream(&mut rng, &mut lean, &mut rep, &rt, args.scale(500, 12000), &corpus);
         sim_stream(&mut rng, &mut lean, &mut rep, args.scale(3000, 80000), &corpus);
         net_stream(&mut rng, &mut rep, args.scale(1500, 40000));
         echoresp_stream(&mut rng, &mut lean, &mut rep, &rt, args.scale(400, 8000));
+        receivers_stream(&mut rng, &mut lean, &mut rep, &rt, args.scale(400, 12000), &histories);
     }
     rep.write(&args.out);
     std::process::exit(if rep.ok() { 0 } else { 1 });
